@@ -5,6 +5,6 @@ CONSTANTS
   MaxSteps = 7
   MaxRuns = 3
   EmitLen = 0
-INVARIANTS ColumnsOK OncePerRun MultiplesOnly NoGap RunAveOK RunAveComplete AcfOK AcfOnce Wit
-POSTCONDITION WitPost
+INVARIANTS ColumnsOK OncePerRun MultiplesOnly NoGap RunAveOK RunAveComplete AcfOK AcfOnce
+\* vacuity: on
 CHECK_DEADLOCK FALSE
